@@ -45,6 +45,23 @@ func akSchema(impl string) *jsonapi.Schema {
 		return s
 	}
 	s := buildAkSchema(impl, false)
+	// the schema object has a history before it serves: a spare type and a spare attribute came and
+	// went, with payloads read in between (whatever is remembered per schema or per type name must
+	// follow the edits)
+	must(s.AddType(jsonapi.Type{Name: "aa0"}))
+	spare := "ak" // a soft type of this schema (a struct-backed type cannot be given a field it has no Go field for)
+	if impl != "soft" {
+		spare = "ak2"
+	}
+	must(s.AddAttr(spare, jsonapi.Attr{Name: "zx", Type: jsonapi.AttrTypeString}))
+	for _, pl := range []string{`{"type":"` + spare + `","id":"h1","attributes":{"zx":"v"}}`, `{"type":"aa0","id":"h2"}`,
+		`{"type":"ak","id":"h3","attributes":{"kint8":5}}`, `{"type":"ak3","id":"h4","attributes":{"t":"x"}}`} {
+		_, _ = jsonapi.UnmarshalResource([]byte(pl), s)
+		_, _ = jsonapi.UnmarshalPartialResource([]byte(pl), s)
+		_, _ = jsonapi.UnmarshalDocument([]byte(`{"data":`+pl+`}`), s)
+	}
+	s.RemoveAttr(spare, "zx")
+	s.RemoveType("aa0")
 	akSchemas[impl] = s
 	return s
 }
